@@ -9,6 +9,24 @@ pub fn run(args: &[String]) -> Outcome
     let mut app = new_app();
     let world = app.world_mut();
     let l = log.clone();
+    if what == "never_runs"
+    {
+        // a one-off reactor that is revoked before any trigger fires, and one with an empty bundle: both are gone after
+        // the next garbage collection, without ever having run
+        let l2 = log.clone();
+        let t = world.react(|rc| rc.once(broadcast::<u32>(), move || { l2.lock().unwrap().push(1); }));
+        let e1: Entity = *SystemCommand::from(t.clone());
+        world.react(|rc| rc.revoke(t));
+        let l3 = log.clone();
+        let t2 = world.react(|rc| rc.once((), move || { l3.lock().unwrap().push(2); }));
+        let e2: Entity = *SystemCommand::from(t2);
+        world.react(|rc| rc.broadcast(7u32));
+        garbage_collect_entities(world);
+        let gone = world.get_entity(e1).is_err() && world.get_entity(e2).is_err();
+        let v = log.lock().unwrap().clone();
+        let ok = v.is_empty() && gone;
+        return Outcome{ ok, json: format!("{{\"scenario\":\"once\",\"what\":\"never_runs\",\"ok\":{},\"observed\":{{\"runs\":{},\"entities_gone\":{}}},\"expected\":{{\"runs\":[],\"entities_gone\":true}}}}", ok, fmt_list(&v), gone) };
+    }
     let token = match what
     {
         "self_trigger" => world.react(|rc| rc.once(broadcast::<u32>(), move |mut c: Commands| { l.lock().unwrap().push(1); c.react().broadcast(2u32); })),
